@@ -1075,6 +1075,8 @@ class CTRFileIO(_CryptoFileBase):
 
         # attempt to re-use a cipher object when possible (it becomes invalidated when seeking)
         self._current_cipher = None
+        # a PyCryptodome cipher object can only be used in one direction
+        self._current_cipher_decrypts = False
 
     def __repr__(self):
         return (f'{type(self).__name__}(file={self._reader!r}, keyslot={self._keyslot}, counter={self._counter!r}, '
@@ -1089,12 +1091,13 @@ class CTRFileIO(_CryptoFileBase):
             cur_offset = self.tell()
             data = self._reader.read(size)
             cipher = self._current_cipher
-            if not cipher:
+            if not cipher or not self._current_cipher_decrypts:
                 counter = self._counter + (cur_offset >> 4)
                 cipher = self._crypto.create_ctr_cipher(self._keyslot, counter)
                 # beginning padding
                 cipher.decrypt(b'\0' * (cur_offset % 0x10))
                 self._current_cipher = cipher
+                self._current_cipher_decrypts = True
             return cipher.decrypt(data)
 
     @_raise_if_file_closed
@@ -1102,12 +1105,13 @@ class CTRFileIO(_CryptoFileBase):
         with self._lock:
             cur_offset = self.tell()
             cipher = self._current_cipher
-            if not cipher:
+            if not cipher or self._current_cipher_decrypts:
                 counter = self._counter + (cur_offset >> 4)
                 cipher = self._crypto.create_ctr_cipher(self._keyslot, counter)
                 # beginning padding
                 cipher.encrypt(b'\0' * (cur_offset % 0x10))
                 self._current_cipher = cipher
+                self._current_cipher_decrypts = False
             return self._reader.write(cipher.encrypt(data))
 
     @_raise_if_file_closed
